@@ -342,6 +342,10 @@ func checkC06(c *Ctx) {
 	}
 	r.Count("shape x scenario evaluated", nOK+len(bad))
 
+	r.Rule("R06h", "scenario messages: the component schema describes exactly the keys the documented mapping puts on the wire", 5)
+	crossScenarioKeys(c, "R06h", "openapi")
+	c.W.HookRuns = oaHook
+	c.W.ExternStructs = true
 	c06Callers(c)
 	c06PropertyNames(c)
 	c06WKT(c)
